@@ -15,7 +15,7 @@ CONSTANTS MaxDocs, LongMax, Export
 Doc(mid, roid, kind) == [mid |-> mid, roid |-> roid, kind |-> kind]
 Pool == { Doc(9, "RO1", "roCreate"), Doc(1000, "RO1", "roCreate"),
           Doc(10, "RO1", "ok"), Doc(100, "RO1", "warn"), Doc(11, "RO1", "fail"),
-          Doc(101, "RO1", "roDelete"), Doc(8, "RO1", "roDelete"), Doc(99, "RO2", "ok"),
+          Doc(101, "RO1", "roDelete"), Doc(8, "RO1", "roDelete"), Doc(99, "RO1 ", "ok"),             \* another running order: the id differs by a trailing blank only
           Doc(12, "RO1", "roReplace"),       \* a roReplace is a message, not a second roCreate
           Doc(13, "RO1", "warn2") }          \* merges with two warnings of the same kind
 
@@ -25,7 +25,7 @@ ShortLists == UNION { { s \in [1..n -> Pool] : \A a, b \in 1..n : a # b => s[a] 
 (* every subset of LongLen..LongMax documents that holds the roCreate 9    *)
 Ascending(S) == SortByMid(SetToSeq(S))
 LongSets == { S \in SUBSET Pool : Cardinality(S) \in (MaxDocs+1)..LongMax /\ Doc(9, "RO1", "roCreate") \in S
-                                  /\ Doc(1000, "RO1", "roCreate") \notin S /\ Doc(99, "RO2", "ok") \notin S }
+                                  /\ Doc(1000, "RO1", "roCreate") \notin S /\ Doc(99, "RO1 ", "ok") \notin S }
 LongLists == { Ascending(S) : S \in LongSets } \cup { Reverse(Ascending(S)) : S \in LongSets }
 Lists == ShortLists \cup LongLists
 
